@@ -112,8 +112,8 @@ def main():
         ),
         engines=[
             dict(name="E1", path="mc/e1.py", kind_free_text="bounded-exhaustive generation-tree explorer over inputs, executed on the real parser", serves_properties=[c["property_id"] for c in checks if "E1" in c["engine"]]),
-            dict(name="E2", path="mc/hist.py", kind_free_text="explicit-state BFS over histories (operations, parses, imports, edits) of the real code", serves_properties=[c["property_id"] for c in checks if "E2" in c["engine"]]),
-            dict(name="E3", path="mc/automata.py", kind_free_text="captured recognisers -> NFA, product-automaton reachability, witnesses replayed on the real line parsers", serves_properties=[c["property_id"] for c in checks if "E3" in c["engine"]]),
+            dict(name="E2", path="mc/props/ (c11, c17, c18, c19, c20; child mc/imp_child.py)", kind_free_text="explicit-state BFS over histories (operations, parses, imports, edits) of the real code", serves_properties=[c["property_id"] for c in checks if "E2" in c["engine"]]),
+            dict(name="E3", path="mc/automata.py + mc/linelang.py", kind_free_text="captured recognisers -> NFA, product-automaton reachability, witnesses replayed on the real line parsers", serves_properties=[c["property_id"] for c in checks if "E3" in c["engine"]]),
             dict(name="E4", path="mc/sched.py", kind_free_text="preemption-bounded schedule explorer for real threads (trace-function baton)", serves_properties=[c["property_id"] for c in checks if "E4" in c["engine"]]),
         ],
         checks=checks,
